@@ -79,11 +79,53 @@ func analyseParserLoop(c *core.Ctx, want map[string]bool) {
 			}
 		}
 	}
+	// Second accepted shape: the loop's memory is a state object (s := &scanState{…}) whose *ParserNode field is
+	// the open record and whose methods do the work of the loop body.
+	nodeField := ""
 	if nodePhi == nil {
-		for r := range want {
-			c.Undecide(r, fname, "loop", c.P.Pos(psc.Pos()), "no loop headed by Scanner.Scan() that carries the open *ParserNode in a φ was found: the parser left the idiom the rule models", nil)
+		for _, b := range psc.Blocks {
+			for _, in := range b.Instrs {
+				if call, ok := in.(*ssa.Call); ok && isMethod(call.Call.StaticCallee(), "bufio", "Scanner", "Scan") && isLoopHead(b) {
+					loopHead = b
+				}
+				al, ok := in.(*ssa.Alloc)
+				if !ok {
+					continue
+				}
+				if st, ok := al.Type().(*types.Pointer).Elem().Underlying().(*types.Struct); ok {
+					for i := 0; i < st.NumFields(); i++ {
+						if pt, ok := st.Field(i).Type().(*types.Pointer); ok {
+							if n, ok := pt.Elem().(*types.Named); ok && n.Obj().Name() == "ParserNode" {
+								nodeField = st.Field(i).Name()
+							}
+						}
+					}
+				}
+			}
 		}
-		return
+		if loopHead == nil || nodeField == "" {
+			for r := range want {
+				c.Undecide(r, fname, "loop", c.P.Pos(psc.Pos()), "no loop headed by Scanner.Scan() that carries the open *ParserNode in a φ or in a field of a state object was found: the parser left the idioms the rule models", nil)
+			}
+			return
+		}
+	}
+	// curNode: the open record as the current state sees it
+	curNode := func(s *absint.State) (absint.Value, bool) {
+		if nodePhi != nil {
+			f := rootFrame(s)
+			if f == nil {
+				return nil, false
+			}
+			v, ok := f.Env[nodePhi]
+			return v, ok
+		}
+		for k, v := range s.Heap {
+			if strings.HasPrefix(k, "A:r/") && strings.HasSuffix(k, "·"+nodeField) && strings.Count(k, "·") == 1 {
+				return v, true
+			}
+		}
+		return absint.Const{Nil: true}, true
 	}
 
 	x := newExec(c)
@@ -241,13 +283,15 @@ func analyseParserLoop(c *core.Ctx, want map[string]bool) {
 			s.SetData("stop", outs[0])
 		case strings.HasPrefix(atom, "nil("):
 			// nil test on the node φ value
-			if f := rootFrame(s); f != nil {
-				if nv, ok := f.Env[nodePhi]; ok && atom == "nil("+nv.Key()+")" {
-					if outs[0] == "nil" {
-						s.SetData("open", "F")
-					} else {
-						s.SetData("open", "T")
-					}
+			if os.Getenv("HRDEBUGN") != "" {
+				nv, _ := curNode(s)
+				fmt.Fprintf(os.Stderr, "DECIDE %s outs=%v cur=%v\n", atom, outs, nv)
+			}
+			if nv, ok := curNode(s); ok && atom == "nil("+nv.Key()+")" {
+				if outs[0] == "nil" {
+					s.SetData("open", "F")
+				} else {
+					s.SetData("open", "T")
 				}
 			}
 		}
@@ -296,8 +340,15 @@ func analyseParserLoop(c *core.Ctx, want map[string]bool) {
 			default:
 				if strings.HasPrefix(d["node0"], "&") {
 					open = "T"
+				} else if o := x.Possible(s, "nil("+d["node0"]+")"); len(o) == 1 {
+					// the path already knows whether the open record is nil (a fact carried over from an earlier test)
+					open = map[string]string{"nil": "F", "nonnil": "T"}[o[0]]
 				}
 			}
+		}
+		if os.Getenv("HRDEBUGN") != "" && open == "" {
+			nv, _ := curNode(s)
+			fmt.Fprintf(os.Stderr, "OPEN? node0=%q cur=%v ev=%s first=%s\n", d["node0"], nv, d["ev"], d["first"])
 		}
 		got := d["ev"]
 		if d["note"] == "T" && got == "" && d["mpnil"] == "nil" {
@@ -350,9 +401,13 @@ func analyseParserLoop(c *core.Ctx, want map[string]bool) {
 			return absint.Sym{Name: "scanner"}, true
 		case isMethod(callee, "bufio", "Scanner", "Scan"):
 			if inRoot {
-				f := rootFrame(s)
-				if nv, ok := f.Env[nodePhi]; ok {
+				if nv, ok := curNode(s); ok {
 					s.SetData("node0", nv.Key())
+					// a fact about the open record carried over from an earlier test decides "open" for this line
+					// as well (the test itself is then folded away and produces no decision)
+					if o := x.Possible(s, "nil("+nv.Key()+")"); len(o) == 1 {
+						s.SetData("open", map[string]string{"nil": "F", "nonnil": "T"}[o[0]])
+					}
 				}
 			}
 			return x.Fresh(s, "scan"), true
@@ -399,10 +454,8 @@ func analyseParserLoop(c *core.Ctx, want map[string]bool) {
 				if x2 := nilnessOf(x, s, nodeA); x2 != "nonnil" {
 					report("C08-R1", "producer", pos, "the callback is invoked with a nil error and a record that is not known to be non-nil (%s)", nodeA.Key())
 				}
-				if f := rootFrame(s); f != nil {
-					if nv, ok := f.Env[nodePhi]; ok && nv.Key() != nodeA.Key() {
-						report("C04-R1", "flush", pos, "the record delivered (%s) is not the open record (%s)", nodeA.Key(), nv.Key())
-					}
+				if nv, ok := curNode(s); ok && nv.Key() != nodeA.Key() {
+					report("C04-R1", "flush", pos, "the record delivered (%s) is not the open record (%s)", nodeA.Key(), nv.Key())
 				}
 				addEv(s, "flush")
 			case isNilConst(nodeA):
@@ -492,7 +545,7 @@ func analyseParserLoop(c *core.Ctx, want map[string]bool) {
 		where := c.P.Pos(scanPos(loopHead))
 		checkIteration(x, s, where, false)
 		// the open record survives the line unless a heading replaced it
-		nv := f.Env[nodePhi]
+		nv, _ := curNode(s)
 		if !strings.Contains(s.Data["ev"], "open") && nv != nil && s.Data["node0"] != "" && nv.Key() != s.Data["node0"] {
 			report("C04-R1", "record-kept", where, "after a line with events [%s] the open record changes from %s to %s although no heading was read: the rest of the record is lost", s.Data["ev"], s.Data["node0"], nv.Key())
 		}
@@ -815,4 +868,14 @@ func frameInPkg(s *absint.State, path string) bool {
 		return false
 	}
 	return core.FnPkgPath(s.Frames[len(s.Frames)-1].Fn) == path
+}
+
+// isLoopHead: some predecessor of b is dominated by b (b heads a loop).
+func isLoopHead(b *ssa.BasicBlock) bool {
+	for _, p := range b.Preds {
+		if b.Dominates(p) {
+			return true
+		}
+	}
+	return false
 }
